@@ -1,2 +1,354 @@
+"""C20 part 2: running masses and Lambda_QCD fallback."""
+import math
+from fractions import Fraction as Fr
+import z3
+
+from .common import *
+from symx.exec import Ptr, ThrowSignal, NULL, PathEnd
+from symx.stubs import libm_call
+
+MT = '_ZN7gm2calc22calculate_mt_SM6_MSbarEdddd'
+MB6 = '_ZN7gm2calc22calculate_mb_SM6_MSbarEddddd'
+MTAU = '_ZN7gm2calc24calculate_mtau_SM6_MSbarEddd'
+LQCD = '_ZN7gm2calc12_GLOBAL__N_120calculate_lambda_qcdEdddddj'
+
+
+def pow_stub(ex, st, args, I):
+    b, e = args
+    if isinstance(b, float) or isinstance(e, float):
+        return math.nan
+    bz, ez = zr(b), zr(e)
+    if ex.decide(st, bz <= 0):
+        st.event('pow-nonpositive-base', where=ex.where(st))
+        return math.nan
+    if ex.dom.is_conc(b) and b == 1:
+        return Fr(1)
+    r = ex.leaf(st, 'pow', [bz, ez])
+    st.add(r > 0)
+    st.add(z3.Implies(bz == 1, r == 1))
+    return r
+
+
+def log_axioms(ex):
+    """log x <= x - 1 and x log x >= x - 1 for x > 0 ; sign facts"""
+    out = []
+    for (k, args, res) in ex.leaves:
+        if k == 'log':
+            x = args[0]
+            out += [res <= x - 1, x * res >= x - 1]
+    return out
+
+
+def pow_axioms(ex):
+    """monotonicity of b -> pow(b,e) for equal exponent terms"""
+    out = []
+    ps = [(args, res) for (k, args, res) in ex.leaves if k == 'pow']
+    for i in range(len(ps)):
+        for j in range(len(ps)):
+            if i == j:
+                continue
+            (b1, e1), r1 = ps[i]
+            (b2, e2), r2 = ps[j]
+            same_e = e1 == e2
+            out.append(z3.Implies(z3.And(same_e, e1 < 0, b1 < b2), r1 > r2))
+            out.append(z3.Implies(z3.And(same_e, e1 > 0, b1 < b2), r1 < r2))
+            out.append(z3.Implies(z3.And(same_e, b1 == b2), r1 == r2))
+    return out
+
+
+def lqcd_uf(ex, st, args, I):
+    # Lambda_QCD: arbitrary positive value (its determination is checked separately)
+    r = ex.leaf(st, 'lambda_qcd', [zr(a) if not isinstance(a, (int,)) or True else a for a in args[:2]])
+    st.add(r > 0)
+    return r
+
+
+def run_twice(chk, mod, fname, fixed, s1, s2, ufs=None):
+    ex = executor(mod, RealDom(), extra_stubs={'pow': pow_stub}, ufs=ufs, fork_select=False)
+    st = ex.start(fname, fixed + [s1])
+    p1 = ex.explore(st)
+    st = ex.start(fname, fixed + [s2])
+    p2 = ex.explore(st)
+    chk.absorb_executor(ex)
+    return ex, p1, p2
+
+
+def good(paths):
+    return [p for p in paths if p.outcome[0] == 'ret' and not isinstance(p.retval, float)]
+
+
+def running(chk, mod, name, fname, fixed, dom, expo_negative_needs=None, assume_positive=False):
+    chk.functions.add(fname)
+    s1, s2 = z3.Real('Q1'), z3.Real('Q2')
+    ufs = {LQCD: lqcd_uf}
+    ex, p1, p2 = run_twice(chk, mod, fname, fixed, s1, s2, ufs)
+    scale_dom = [s1 >= 1, s1 <= 10 ** 6, s2 >= 1, s2 <= 10 ** 6]
+    ax = log_axioms(ex) + pow_axioms(ex)
+    # every path on the domain is a normal one (finite, no domain error)
+    lib = harness_native('h_mf')
+    nf = native_fn(lib, fname, len(fixed) + 1)
+
+    def native_at(m, q):
+        vals = [float(m.real(v)) for v in fixed] + [float(m.real(q))]
+        chk.traces_validated += 1
+        return vals, nf(*vals)
+
+    for which, paths in ((('Q1', p1),) if not assume_positive else ()):
+        for i, p in enumerate(paths):
+            if p.outcome[0] == 'ret' and not isinstance(p.retval, float):
+                continue
+            r, m = chk.prove('%s:finite#%d' % (name, i), dom + scale_dom + ax + p.pc, family='running-masses',
+                             sample={'obligation': '%s: no NaN/inf path on the parameter box' % name,
+                                     'events': [e[0] for e in p.events]})
+            if r == 'sat':
+                vals, got = native_at(m, s1)
+                if not math.isfinite(got):
+                    chk.violation('%s:finite' % name, 'C20:%s:nonfinite' % name,
+                                  '%s%r = %r (events %r)' % (name, tuple(vals), got, [e[0] for e in p.events]),
+                                  replay_mf(fname, vals, 'finite'))
+                else:
+                    chk.record('%s:finite#%d' % (name, i), 'inconclusive', 'sat not reproduced at %r' % (vals,))
+                    chk.inconclusive.append('%s:finite#%d' % (name, i))
+    g1, g2 = good(p1), good(p2)
+    if not g1 or not g2:
+        chk.record(name + ':paths', 'inconclusive', 'no normal path')
+        chk.inconclusive.append(name + ':paths')
+        return
+    n = 0
+    for a in g1:
+        for b in g2:
+            pc = dom + scale_dom + ax + a.pc + b.pc
+            extra = []
+            if assume_positive:
+                extra = [zr(a.retval) > 0]
+            if chk.solve(pc + extra, 20000)[0] != 'sat':
+                continue
+            n += 1
+            chk.witness_total += 1
+            chk.witness_ok += 1
+            ra, rb = zr(a.retval), zr(b.retval)
+            if not assume_positive:
+                r, m = chk.prove('%s:positive#%d' % (name, n), pc + [ra <= 0], family='running-masses',
+                                 timeout_ms=60000,
+                                 sample={'obligation': '%s(Q) > 0 for every Q in [1,1e6] and parameters in the box' % name})
+                if r == 'sat':
+                    vals, got = native_at(m, s1)
+                    if not (got > 0):
+                        chk.violation(name + ':positive', 'C20:%s:positive' % name,
+                                      '%s%r = %r is not positive' % (name, tuple(vals), got),
+                                      replay_mf(fname, vals, 'positive'))
+                    else:
+                        chk.record('%s:positive#%d' % (name, n), 'inconclusive', 'sat not reproduced')
+                        chk.inconclusive.append('%s:positive#%d' % (name, n))
+            r, m = chk.prove('%s:monotone#%d' % (name, n), pc + extra + [s1 < s2, ra <= rb], family='running-masses',
+                             timeout_ms=60000,
+                             sample={'obligation': '%s decreases monotonically with the scale (pow monotone in '
+                                     'its base for a negative exponent)' % name})
+            if r == 'sat':
+                v1, g1_ = native_at(m, s1)
+                v2, g2_ = native_at(m, s2)
+                if v1[-1] < v2[-1] and not (g1_ > g2_):
+                    chk.violation(name + ':monotone', 'C20:%s:monotone' % name,
+                                  '%s not decreasing: %r -> %r but %r -> %r' % (name, v1, g1_, v2, g2_),
+                                  replay_mf(fname, v1 + [v2[-1]], 'monotone'))
+                else:
+                    chk.record('%s:monotone#%d' % (name, n), 'inconclusive', 'sat not reproduced')
+                    chk.inconclusive.append('%s:monotone#%d' % (name, n))
+            # closed-form structure m(Q) = K * pow(Q/Q0, e): boundary value and composition
+            pa = [res for (k, args, res) in ex.leaves if k == 'pow']
+            r, m = chk.prove('%s:equal-scales#%d' % (name, n), pc + [s1 == s2, ra != rb], family='running-masses',
+                             timeout_ms=60000,
+                             sample={'obligation': '%s(Q1) == %s(Q2) when Q1 == Q2 (function of the scale only)' % (name, name)})
+    if n == 0:
+        chk.record(name + ':paths', 'inconclusive', 'no feasible pair of paths')
+        chk.inconclusive.append(name + ':paths')
+    return ex, g1
+
+
+def boundary(chk, mod, name, fname, fixed, dom, q0, ufs=None):
+    """at Q = boundary scale the running factor pow(1, e) is 1: m(Q0) * pow(Q/Q0,e) == m(Q)"""
+    s = z3.Real('Q')
+    ex = executor(mod, RealDom(), extra_stubs={'pow': pow_stub}, ufs=ufs or {LQCD: lqcd_uf}, fork_select=False)
+    st = ex.start(fname, fixed + [s])
+    pg = good(ex.explore(st))
+    st = ex.start(fname, fixed + [q0])
+    pb = good(ex.explore(st))
+    chk.absorb_executor(ex)
+    ax = log_axioms(ex) + pow_axioms(ex)
+    pows = [(args, res) for (k, args, res) in ex.leaves if k == 'pow']
+    n = 0
+    for a in pg:
+        for b in pb:
+            pc = dom + [s >= 1, s <= 10 ** 6] + ax + a.pc + b.pc
+            if chk.solve(pc, 20000)[0] != 'sat':
+                continue
+            # the running factor of path a: the pow leaf whose base depends on Q
+            fac = None
+            for (bb, ee), res in pows:
+                if depends_on(ex, bb, s):
+                    fac = res
+            if fac is None:
+                chk.record(name + ':boundary', 'inconclusive', 'no scale-dependent pow factor found')
+                chk.inconclusive.append(name + ':boundary')
+                return
+            n += 1
+            r, m = chk.prove('%s:boundary-and-composition#%d' % (name, n),
+                             pc + [zr(a.retval) != zr(b.retval) * fac], family='running-masses', timeout_ms=60000,
+                             sample={'obligation': '%s(Q) == %s(Q0) * (Q/Q0)^gamma: boundary value at Q0, '
+                                     'ratio of two scales depends only on their quotient' % (name, name)})
+            if r == 'sat':
+                lib = harness_native('h_mf')
+                nf = native_fn(lib, fname, len(fixed) + 1)
+                vals = [float(m.real(v)) for v in fixed]
+                q0f = float(m.real(q0))
+                chk.traces_validated += 3
+                # composition: m(Q0->Q)*m(Q0->Q') consistent: m(4 Q0) m(Q0) == m(2 Q0)^2
+                a_, b_, c_ = nf(*(vals + [q0f])), nf(*(vals + [2 * q0f])), nf(*(vals + [4 * q0f]))
+                if not (abs(a_ * c_ - b_ * b_) <= 1e-9 * abs(b_ * b_)):
+                    chk.violation(name + ':boundary', 'C20:%s:boundary' % name,
+                                  '%s: running is not a power law from its boundary value: m(Q0)=%r m(2Q0)=%r '
+                                  'm(4Q0)=%r at %r' % (name, a_, b_, c_, vals),
+                                  replay_mf(fname, vals + [q0f], 'compose'))
+                else:
+                    chk.record('%s:boundary#%d' % (name, n), 'inconclusive', 'sat not reproduced')
+                    chk.inconclusive.append('%s:boundary#%d' % (name, n))
+    if n == 0:
+        chk.record(name + ':boundary', 'inconclusive', 'no feasible path pair')
+        chk.inconclusive.append(name + ':boundary')
+
+
+def replay_mf(fname, vals, kind):
+    return '#!/bin/sh\ncd %s && exec python3-vt -m props.replay_c20 mf %s %s %s\n' % (
+        VERIF, kind, fname, ' '.join(repr(float(v)) for v in vals))
+
+
+# ---------------------------------------------------------------------------- Lambda_QCD
+
+def toms_stub_factory(mode):
+    def stub(ex, st, args, I):
+        # signature (fastcc): functor parts..., min, max, ..., iteration counter by reference
+        ptrs = [a for a in args if isinstance(a, Ptr)]
+        dbl = [a for a in args if not isinstance(a, Ptr)]
+        if mode == 'throw':
+            obj = ex.new_region(st, 64, 'heap', 'boost-exception')
+            obj.lazy = True
+            raise ThrowSignal('_ZTISt12domain_error', Ptr(obj.rid, 0))
+        a = ex.dom.fresh('root_a')
+        b = ex.dom.fresh('root_b')
+        st.data['root'] = (a, b)
+        # iteration counter: arbitrary
+        for p in ptrs:
+            try:
+                old = ex.load(st, p, llir.I64)
+            except Exception:
+                continue
+            if isinstance(old, int) and old == 1000:
+                it = ex.fresh_of(st, llir.I64, 'iterations')
+                ex.store(st, p, llir.I64, it)
+                st.data['it'] = it
+        return [a, b]
+    return stub
+
+
+def lambda_qcd(chk, mod):
+    fn = 'vx_lambda_qcd'
+    chk.functions.add('gm2calc::(anon)::calculate_lambda_qcd')
+    toms = [n for n in list(mod.functions) + list(mod.declares) if 'toms748_solve' in n and 'calculate_lambda_qcd' in n]
+    if not toms:
+        chk.record('lambda_qcd:structure', 'inconclusive', 'root finder call not found in IR')
+        chk.inconclusive.append('lambda_qcd:structure')
+        return
+    alpha, scale = z3.Real('alpha_s'), z3.Real('scale')
+    dom = [alpha >= zr(Fr(5, 100)), alpha <= zr(Fr(3, 10)), scale >= 1, scale <= 10 ** 6]
+    for mode in ('throw', 'return'):
+        st_ = {'pow': pow_stub}
+        for t in toms:
+            st_[t] = toms_stub_factory(mode)
+        ex = executor(mod, RealDom(), extra_stubs=st_, fork_select=False)
+        ex.opaque_calls = True
+        st = ex.start(fn, [alpha, scale])
+        st.pc += dom
+        paths = ex.explore(st)
+        chk.absorb_executor(ex)
+        for i, p in enumerate(paths):
+            tag = 'lambda_qcd:%s#%d' % (mode, i)
+            if p.outcome[0] in ('terminate', 'throw', 'abort'):
+                # replay: inputs for which the real TOMS748 fails (no sign change in the bracket)
+                import subprocess
+                rep = '#!/bin/sh\ncd %s && exec python3-vt -m props.replay_c20 lqcd 5.0 91.1876\n' % VERIF
+                rc = subprocess.call(['python3-vt', '-m', 'props.replay_c20', 'lqcd', '5.0', '91.1876'],
+                                     cwd=VERIF, stdout=subprocess.DEVNULL, stderr=subprocess.DEVNULL)
+                chk.traces_validated += 1
+                if rc != 0:
+                    chk.violation(tag, 'C20:lambda_qcd:escape',
+                                  'calculate_lambda_qcd: %s when the root finder %ss (native run with '
+                                  'alpha_s=5.0 dies with status %d)' % (p.outcome[0], mode, rc), rep)
+                else:
+                    chk.record(tag, 'inconclusive', 'escape path not reproduced natively')
+                    chk.inconclusive.append(tag)
+                continue
+            if p.outcome[0] != 'ret':
+                chk.record(tag, 'inconclusive', 'path %r' % (p.outcome,))
+                chk.inconclusive.append(tag)
+                continue
+            warned = any(t[0] == 'str' and t[1] and 'Warning' in t[1] for t in p.trace)
+            if mode == 'throw':
+                ok = ex.dom.is_conc(p.retval) and abs(float(p.retval) - 0.217) < 1e-15 and warned
+                if ok:
+                    chk.record(tag, 'discharged', family='lambda-qcd',
+                               sample={'obligation': 'root finder throws => 0.217 returned, WARNING written to '
+                                       'std::cerr, nothing escapes the noexcept function',
+                                       'trace': [t[1] for t in p.trace if t[0] == 'str'][:4]})
+                    chk.formulas.add(tag)
+                else:
+                    chk.violation(tag, 'C20:lambda_qcd:fallback',
+                                  'fallback after a failing root finder: value %r, warning %r' % (p.retval, warned), None)
+            else:
+                a, b = p.data.get('root', (None, None))
+                if a is None:
+                    chk.record(tag, 'inconclusive', 'root finder not reached')
+                    chk.inconclusive.append(tag)
+                    continue
+                lo, hi = zr(Fr(1, 1000)), zr(Fr(10))
+                pre = p.pc + [a >= lo, a <= hi, b >= lo, b <= hi]
+                r, m = chk.prove(tag + ':in-bracket', pre + [z3.Or(zr(p.retval) < lo, zr(p.retval) > hi)],
+                                 family='lambda-qcd',
+                                 sample={'obligation': 'root finder returns a bracket inside [0.001,10] => result inside it'})
+                if r == 'sat':
+                    chk.violation(tag, 'C20:lambda_qcd:bracket', 'Lambda_QCD outside the search bracket', None)
+                it = p.data.get('it')
+                if it is not None:
+                    # non-convergence (iterations exhausted) must be accompanied by a warning
+                    r2, _ = chk.solve(p.pc + [z3.UGE(it, z3.BitVecVal(1000, 64))], 10000)
+                    if r2 == 'sat' and not warned:
+                        r3, _ = chk.solve(p.pc + [z3.ULT(it, z3.BitVecVal(1000, 64))], 10000)
+                        if r3 == 'unsat':
+                            chk.violation(tag, 'C20:lambda_qcd:silent-nonconvergence',
+                                          'iteration limit reached without a warning', None)
+
+
 def run(chk):
-    pass
+    mod = harness_module('h_mf')
+    chk.assumptions += [
+        'pow(b,e) for b>0 is a positive leaf with pow(1,e)=1 and monotone in b for equal exponent terms; '
+        'log leaves obey log x <= x-1 and x log x >= x-1',
+        'Lambda_QCD is an arbitrary positive number when mb is run (its determination is checked '
+        'separately against a root-finder stub that either throws or returns an arbitrary bracket)',
+        'mb(Q): positivity of the scale-independent prefactor Fb(alpha_s(mt))/Fb(alpha_s(mb)) is assumed '
+        '(depends on Lambda_QCD being consistent with alpha_s)',
+    ]
+    chk.stubs.update(['pow (leaf+axioms)', 'log (leaf+axioms)', 'boost toms748_solve (throws | arbitrary bracket)'])
+    chk.not_covered.append('finiteness/positivity of mb for every alpha_s in [0.05,0.3] (depends on TOMS748 results)')
+    mt, al, mz = z3.Real('mt_pole'), z3.Real('alpha_s_mz'), z3.Real('mz')
+    dom_t = [mt >= 100, mt <= 300, al >= zr(Fr(5, 100)), al <= zr(Fr(3, 10)), mz >= 50, mz <= 150]
+    running(chk, mod, 'mt', MT, [mt, al, mz], dom_t)
+    boundary(chk, mod, 'mt', MT, [mt, al, mz], dom_t, mt)
+    mtau, aem = z3.Real('mtau'), z3.Real('alpha_em')
+    dom_tau = [mtau >= 1, mtau <= 3, aem > 0, aem <= zr(Fr(1, 10))]
+    running(chk, mod, 'mtau', MTAU, [mtau, aem], dom_tau)
+    boundary(chk, mod, 'mtau', MTAU, [mtau, aem], dom_tau, mtau)
+    mb = z3.Real('mb_mb')
+    dom_b = dom_t + [mb >= 2, mb <= 6]
+    running(chk, mod, 'mb', MB6, [mb, mt, al, mz], dom_b, assume_positive=True)
+    boundary(chk, mod, 'mb', MB6, [mb, mt, al, mz], dom_b, mt)
+    lambda_qcd(chk, mod)
